@@ -239,6 +239,24 @@ fn check_coset(c: &CosetCase, obs: &mut Obs) -> Result<(), String> {
         ensure!(e == r, "coset representative {:?} of row {} traced from row 0 ends in row {}", lw, r, e);
     }
     ensure!(reps.len() == t.len(), "{} coset representatives for {} rows", reps.len(), t.len());
+    // the same action with its rows renumbered (a table assembled through the public new / set): the
+    // representatives must still lead from row 0 to their rows - nothing says rows are numbered in the
+    // order in which they are reached
+    if t.len() >= 3 {
+        let hsh = h64(&(c.name.as_str(), &c.sub, t.len()));
+        let sw: Vec<(u32, u32)> = (0..4u32).map(|j| ((hsh >> (j * 8)) as u32 ^ 0x9E37, (hsh >> (j * 8 + 32)) as u32)).collect();
+        let rt = crate::props::c05::renumber_rows(&t, &sw);
+        let rct = crate::props::c13::to_crate_table(&rt);
+        let rreps = guarded(|| coset_representative(&rct)).map_err(|m| format!("coset_representative panics on the table with renumbered rows: {}", m))?;
+        for r in 0..rt.len() {
+            let w = rreps.get(&r).ok_or_else(|| format!("rows renumbered (table {:?}): no coset representative for row {}", rt.fwd, r))?;
+            let lw: Word = w.iter().map(|&x| x as i64).collect();
+            let e = rt.trace(0, &lw);
+            ensure!(e == r, "rows renumbered (table {:?}): coset representative {:?} of row {} traced from row 0 ends in row {}", rt.fwd, lw, r, e);
+        }
+        ensure!(rreps.len() == rt.len(), "rows renumbered: {} coset representatives for {} rows", rreps.len(), rt.len());
+        obs.class("coset representatives on a renumbered table");
+    }
     // differential: the action with base point H is unique up to relabelling that fixes row 0
     let own = todd_coxeter(c.nr_gens, &c.rels, &sub, 400_000).ok_or("harness: reference enumeration did not finish")?;
     ensure!(own.is_transitive() && own.relators_close(&c.rels).is_none() && sub.iter().all(|w| own.trace(0, w) == 0), "harness: the reference Todd-Coxeter table is not a valid coset table");
